@@ -32,6 +32,8 @@ import (
 	"os"
 	"path/filepath"
 	"runtime"
+	"runtime/debug"
+	"runtime/pprof"
 	"sort"
 	"sync"
 	"sync/atomic"
@@ -100,7 +102,9 @@ func main() {
 	cfg := vlib.ParseFlags("C17", "exploration")
 	r := vlib.NewReport(cfg)
 	setEnvTable()
+	debug.SetGCPercent(600) // allocation-heavy parsing; the live heap is small
 	thoroughAtoms = cfg.Thorough()
+	smallPool = !cfg.Thorough()
 
 	verifDir := os.Getenv("VERIF_DIR")
 	if verifDir == "" {
@@ -119,6 +123,13 @@ func main() {
 		if err != nil {
 			os.RemoveAll(envDir)
 			vlib.Fatal("replay: %v", err)
+		}
+		alwaysDetail = true
+		if os.Getenv("C17_DEBUG_SHRINK") != "" && c.Check != "env" {
+			debugShrink = true
+			c.Sig = runCase(&c).Sig
+			m := shrink(&c)
+			fmt.Println("shrunk to", classOf(m))
 		}
 		res := runCase(&c)
 		fmt.Printf("replay class=%s\n", class)
@@ -143,6 +154,11 @@ func main() {
 		r.Finish()
 	}
 
+	if pf := os.Getenv("C17_PROF"); pf != "" {
+		f, _ := os.Create(pf)
+		pprof.StartCPUProfile(f)
+		defer pprof.StopCPUProfile()
+	}
 	items := append(enumerateTypes("A", cfg.Thorough()), enumerateTypes("B", cfg.Thorough())...)
 	order := make([]int, len(items))
 	for i := range order {
@@ -181,7 +197,11 @@ func main() {
 					continue
 				}
 				idx := order[k]
-				nd, np := processType(r, co, idx, items[idx])
+				vs := []int{0, 1, 2, 3}
+				if !cfg.Thorough() && items[idx].Level == "L2" {
+					vs = []int{0, 3} // quick: two-field types in declared and swapped spelling only
+				}
+				nd, np := processType(r, co, idx, items[idx], vs)
 				plMu.Lock()
 				key := items[idx].Fam + "/" + items[idx].Level
 				if perLevel[key] == nil {
@@ -215,6 +235,7 @@ func main() {
 	}
 
 	os.RemoveAll(envDir)
+	pprof.StopCPUProfile()
 	for i := 0; i < len(items); i += len(items)/10 + 1 {
 		docs := topLevelDocs(items[i])
 		r.Sample(map[string]any{"family": items[i].Fam, "level": items[i].Level, "type": items[i].Spec.String(), "documents": len(docs),
@@ -250,29 +271,67 @@ func main() {
 	r.Finish()
 }
 
+// project: the case restricted to top-level field i (the other field and its keys removed).
+func project(c *Case, i int) *Case {
+	s := &StructSpec{Fields: []FieldSpec{c.Spec.Fields[i]}}
+	d := c.Doc.clone()
+	for j, f := range c.Spec.Fields {
+		if j == i {
+			continue
+		}
+		if f.Kind == kEmbed {
+			for _, inf := range f.Inner.Fields {
+				removeKeyInPlace(d, inf.Key())
+			}
+		} else {
+			removeKeyInPlace(d, f.Key())
+		}
+	}
+	return &Case{Check: c.Check, Spec: s, Doc: d, Variant: c.Variant}
+}
+
 // processType runs all checks on every document of one type. It returns the number of
 // documents and of (document, spelling) pairs.
-func processType(r *vlib.Report, co *collector, idx int, it typeItem) (int, int) {
+func processType(r *vlib.Report, co *collector, idx int, it typeItem, variants []int) (int, int) {
 	docs := topLevelDocs(it)
 	id := it.Fam + it.Spec.ID()
 	shrunk := map[string]bool{}
 	evals, pairs := 0, 0
 	counts := map[string]int{}
-	fail := func(c *Case, res result, ord [4]int) {
-		raw := fmt.Sprintf("%s|%s|%d|%s", c.Check, res.Sig, c.Variant, valueCat(c.Doc))
-		if os.Getenv("C17_NOSHRINK") != "" || shrunk[raw] || len(shrunk) >= 200 {
-			counts["failing_pairs_not_shrunk_(same_raw_shape_as_an_earlier_one)"]++
+	fail := func(c *Case, sig string, ord [4]int) {
+		c.Sig = sig
+		// A failing pair of a two-field type whose restriction to one field fails as well is
+		// explained by that smaller pair (classified once, globally); only genuine
+		// interactions of the two fields are shrunk from the pair itself.
+		if len(c.Spec.Fields) == 2 {
+			explained := false
+			for i := 0; i < 2; i++ {
+				p := project(c, i)
+				if psig := sigOf(p); psig != "" {
+					explained = true
+					p.Sig = psig
+					cl := classify(p)
+					co.add(&found{class: cl.class, order: ord, desc: cl.desc, c: cl.min})
+				}
+			}
+			if explained {
+				counts["failing_pairs_explained_by_a_single_field_restriction"]++
+				return
+			}
+		}
+		raw := fmt.Sprintf("%s|%s|%d|%s", c.Check, sig, c.Variant, valueCat(c.Doc))
+		if shrunk[raw] {
+			counts["failing_pairs_same_raw_shape_as_an_earlier_one_of_the_type"]++
 			return
 		}
 		shrunk[raw] = true
-		c.Sig = res.Sig
-		m := shrink(c)
-		mres := runCase(m)
-		co.add(&found{class: classOf(m), order: ord, desc: describe(m, mres), c: m})
+		cl := classify(c)
+		co.add(&found{class: cl.class, order: ord, desc: cl.desc, c: cl.min})
 	}
 	for di, d := range docs {
 		seenText := map[string]bool{}
-		for v := 0; v < 4; v++ {
+		var j0 outcome
+		for _, v := range variants {
 			text := renderJSON(recase(d, v))
 			if seenText[text] {
 				continue // this spelling coincides with an earlier one for this document
@@ -281,30 +340,34 @@ func processType(r *vlib.Report, co *collector, idx int, it typeItem) (int, int)
 			pairs++
 			key := fmt.Sprintf("%s|%d|%d", id, di, v)
 			if it.Fam == "A" {
-				res := checkFmt(it.Spec, d, v)
+				o := loadAll(it.Spec, d, v)
+				res := judgeFmt(o)
 				evals++
 				counts["fmt_pairs"]++
-				if res.Panics > 0 {
-					counts["panics"] += res.Panics
-				}
+				counts["panics"] += res.Panics
 				if res.Accepted {
 					counts["fmt_pairs_accepted"]++
 					r.Nontrivial(key)
 				}
-				if !tomlRepresentable(d) {
+				if !o.TOML {
 					counts["fmt_pairs_json_yaml_only"]++
 				}
 				if res.Sig != "" {
 					counts["fmt_failing_pairs"]++
-					fail(&Case{Check: "fmt", Spec: it.Spec, Doc: d, Variant: v}, res, [4]int{idx, di, v, 0})
+					fail(&Case{Check: "fmt", Spec: it.Spec, Doc: d, Variant: v}, res.Sig, [4]int{idx, di, v, 0})
 				}
-				if v != 0 {
-					res := checkCase(it.Spec, d, v)
+				if v == 0 {
+					j0 = o.J
+				} else {
+					res := judgeCase(j0, o.J, v)
 					evals++
 					counts["case_pairs"]++
+					if res.Accepted {
+						counts["case_pairs_accepted"]++
+					}
 					if res.Sig != "" {
 						counts["case_failing_pairs"]++
-						fail(&Case{Check: "case", Spec: it.Spec, Doc: d, Variant: v}, res, [4]int{idx, di, v, 1})
+						fail(&Case{Check: "case", Spec: it.Spec, Doc: d, Variant: v}, res.Sig, [4]int{idx, di, v, 1})
 					}
 				}
 			} else {
@@ -312,22 +375,22 @@ func processType(r *vlib.Report, co *collector, idx int, it typeItem) (int, int)
 				evals++
 				counts["std_pairs"]++
 				counts["std_verdicts_gozero/std="+bucket]++
-				if res.Panics > 0 {
-					counts["panics"] += res.Panics
-				}
+				counts["panics"] += res.Panics
 				if res.Accepted {
 					r.Nontrivial(key)
 				}
 				if res.Sig != "" {
 					counts["std_failing_pairs"]++
-					fail(&Case{Check: "std", Spec: it.Spec, Doc: d, Variant: v}, res, [4]int{idx, di, v, 2})
+					fail(&Case{Check: "std", Spec: it.Spec, Doc: d, Variant: v}, res.Sig, [4]int{idx, di, v, 2})
 				}
 			}
 		}
 	}
 	r.Eval(evals)
 	for k, n := range counts {
-		r.Count(k, n)
+		if n != 0 {
+			r.Count(k, n)
+		}
 	}
 	return len(docs), pairs
 }
